@@ -8,6 +8,7 @@ import (
 	"math/big"
 	"strings"
 
+	"golang.org/x/tools/go/cfg"
 	"golang.org/x/tools/go/ssa"
 )
 
@@ -92,19 +93,15 @@ func runC02(c *Ctx) {
 				// variable index: only the VP8 picture id (after the X and I bits)
 				okPid := false
 				if st != nil {
-					vp8, xbit, ibit := false, false, false
+					vp8 := false
 					for _, f := range st.Facts() {
 						if f.Op == "true" && f.Pos && f.A.K == 'k' && f.A.Name == "strings.EqualFold" && strings.Contains(strings.ToLower(f.key), "video/vp8") {
 							vp8 = true
 						}
-						if f.Op == "true" && f.Pos && f.A.K == 'v' && f.A.Obj.Name() == "x" {
-							xbit = true
-						}
-						if f.Op == "true" && f.Pos && f.A.K == 'v' && f.A.Obj.Name() == "i" {
-							ibit = true
-						}
 					}
-					okPid = vp8 && xbit && ibit
+					// every path to the store passes at least two tests of a
+					// descriptor bit (data[..] & 0x80) on the bit-set side: X and I
+					okPid = vp8 && ff.minBitTests(as, data) >= 2
 				}
 				c.Check(okPid, "R2.1", key, as.Pos(), "picture-id byte: reached only for VP8 with the X and I descriptor bits set", "a payload byte other than the VP8 picture id can be rewritten (store not dominated by codec == VP8, X and I)")
 			}
@@ -368,11 +365,13 @@ func runC02Bits(c *Ctx) {
 		}
 	}
 	// the M test: (data[offset] & 0x80) != 0 whose true edge leads to the 2-byte form
+	trueMeansSet := true
 	isMTest := func(cond ssa.Value) (ssa.Value, bool) {
 		bo, ok := cond.(*ssa.BinOp)
-		if !ok || bo.Op != token.NEQ {
+		if !ok || (bo.Op != token.NEQ && bo.Op != token.EQL) {
 			return nil, false
 		}
+		trueMeansSet = bo.Op == token.NEQ
 		and, ok := bo.X.(*ssa.BinOp)
 		if !ok || and.Op != token.AND {
 			return nil, false
@@ -416,7 +415,7 @@ func runC02Bits(c *Ctx) {
 					continue
 				}
 				if idx, isM := isMTest(iff.Cond); isM && idx == ia.Index {
-					if pr.Succs[0] == x {
+					if (pr.Succs[0] == x) == trueMeansSet {
 						side = 1
 					} else {
 						side = -1
@@ -455,4 +454,104 @@ func runC02Bits(c *Ctx) {
 		}
 	}
 	c.Check(okAll, "R2.5", "every successful Drop accumulates the picture-id shift", dr.Pos(), "the single store to pidDelta precedes every return true", "a frame can be withheld without its picture id being counted (e.g. only when the id does not wrap): the receiver sees a hole in the picture ids")
+}
+
+// minBitTests: the minimum, over all paths from the entry to node n, of the
+// number of conditional edges taken on the "bit set" side of a test
+// (data[e] & 0x80) != 0 (written directly or through a boolean variable
+// defined by such a test).
+func (ff *FuncFacts) minBitTests(n ast.Node, data types.Object) int {
+	info := ff.info()
+	isBitExpr := func(e ast.Expr) (bool, bool) { // (is a test, true means set)
+		be, ok := unparen(e).(*ast.BinaryExpr)
+		if !ok || (be.Op != token.NEQ && be.Op != token.EQL) {
+			return false, false
+		}
+		if tv := info.Types[be.Y]; tv.Value == nil || tv.Value.String() != "0" {
+			return false, false
+		}
+		and, ok := unparen(be.X).(*ast.BinaryExpr)
+		if !ok || and.Op != token.AND {
+			return false, false
+		}
+		if tv := info.Types[and.Y]; tv.Value == nil || tv.Value.String() != "128" {
+			return false, false
+		}
+		ix, ok := unparen(and.X).(*ast.IndexExpr)
+		if !ok {
+			return false, false
+		}
+		if id, ok := unparen(ix.X).(*ast.Ident); !ok || info.ObjectOf(id) != data {
+			return false, false
+		}
+		return true, be.Op == token.NEQ
+	}
+	// boolean variables defined by a bit test
+	bvar := map[types.Object]bool{} // value: true means "variable true = bit set"
+	ast.Inspect(ff.fs.Body(), func(m ast.Node) bool {
+		as, ok := m.(*ast.AssignStmt)
+		if !ok || len(as.Lhs) != len(as.Rhs) {
+			return true
+		}
+		for i, l := range as.Lhs {
+			if id, ok := l.(*ast.Ident); ok {
+				if is, set := isBitExpr(as.Rhs[i]); is {
+					if o := info.ObjectOf(id); o != nil {
+						bvar[o] = set
+					}
+				}
+			}
+		}
+		return true
+	})
+	var classify func(e ast.Expr) (bool, bool)
+	classify = func(e ast.Expr) (bool, bool) {
+		e = unparen(e)
+		if u, ok := e.(*ast.UnaryExpr); ok && u.Op == token.NOT {
+			is, set := classify(u.X)
+			return is, !set
+		}
+		if id, ok := e.(*ast.Ident); ok {
+			if set, has := bvar[info.ObjectOf(id)]; has {
+				return true, set
+			}
+			return false, false
+		}
+		return isBitExpr(e)
+	}
+	tb, _ := ff.blockOf(n)
+	if tb == nil || len(ff.graph.Blocks) == 0 {
+		return 0
+	}
+	const inf = 1 << 20
+	dist := map[*cfg.Block]int{}
+	for _, b := range ff.graph.Blocks {
+		dist[b] = inf
+	}
+	dist[ff.graph.Blocks[0]] = 0
+	for changed := true; changed; {
+		changed = false
+		for _, b := range ff.graph.Blocks {
+			if !b.Live || dist[b] == inf {
+				continue
+			}
+			cond := ff.condOf(b)
+			for i, s := range b.Succs {
+				w := 0
+				if cond != nil && len(b.Succs) == 2 {
+					if is, set := classify(cond); is && ((i == 0) == set) {
+						w = 1
+					}
+				}
+				if dist[b]+w < dist[s] {
+					dist[s] = dist[b] + w
+					changed = true
+				}
+			}
+		}
+	}
+	if dist[tb] == inf {
+		return 0
+	}
+	return dist[tb]
 }
